@@ -148,6 +148,24 @@ func (m *Machine) switchTo(target, self *gor, selfDone bool) {
 func (m *Machine) yieldFrom(self *gor, selfDone bool) {
 	s := m.sched
 	n := len(s.gors)
+	if m.exploreSched && !s.killed {
+		// schedule exploration: any runnable goroutine may be next
+		var runnable []*gor
+		for _, g := range s.gors {
+			if g.done || g == self {
+				continue
+			}
+			if g.canRun != nil && !g.canRun() {
+				continue
+			}
+			runnable = append(runnable, g)
+		}
+		if len(runnable) > 1 {
+			c := m.chooseFree(len(runnable))
+			m.switchTo(runnable[c], self, selfDone)
+			return
+		}
+	}
 	for k := 1; k <= n; k++ {
 		g := s.gors[(self.id+k)%n]
 		if g.done || (g == self && selfDone) {
@@ -192,6 +210,8 @@ func (m *Machine) block(what string, cond func() bool) {
 }
 
 func (m *Machine) chanSend(c *schan, v value) {
+	m.preempt()
+	defer m.record("chansend", c, 0)
 	if c == nil {
 		m.block("send on nil channel", func() bool { return false })
 	}
@@ -216,6 +236,8 @@ func (m *Machine) chanSend(c *schan, v value) {
 }
 
 func (m *Machine) chanRecv(c *schan) (value, bool) {
+	m.preempt()
+	defer m.record("chanrecv", c, 0)
 	if c == nil {
 		m.block("receive on nil channel", func() bool { return false })
 	}
@@ -240,6 +262,8 @@ func (m *Machine) chanRecv(c *schan) (value, bool) {
 }
 
 func (m *Machine) chanClose(c *schan) {
+	m.preempt()
+	m.record("chansend", c, 0)
 	if c == nil {
 		panic(targetPanic{v: "close of nil channel"})
 	}
